@@ -115,8 +115,20 @@ def rangeBits (s : Bytes) : Except PyErr (Option Nat) :=
 def resultWidth (ws : List Nat) : Nat :=
   if isUniform ws then ws.headD 0 else upcastBits ws
 
-/-- `FCSFile.__init__` after the HEADER and the primary TEXT segment have been read -/
-def loadRest (file : Bytes) (h : Header) (t : Dict × Option Nat × Bool) : Except PyErr Loaded := do
+/-- what `FCSFile.__init__` has established before it turns to the DATA segment -/
+structure Keywords where
+  text : Dict
+  analysis : Dict
+  warnings : List String
+  dts : Bytes               -- `$DATATYPE`
+  ws : List Int             -- `$PnB`
+  big : Bool                -- byte order
+  bits : List (Option Nat)  -- `ceil(log2($PnR))` where the model can compute it
+  deriving Repr, DecidableEq
+
+/-- `FCSFile.__init__` after the HEADER and the primary TEXT segment have been read, up to (not including) the DATA segment:
+supplemental TEXT, the checks of `$MODE`, `$DATATYPE`, `$PnB`, `$BYTEORD`, `$NEXTDATA`, the ANALYSIS segment, `$PnR` -/
+def loadKeywords (file : Bytes) (h : Header) (t : Dict × Option Nat × Bool) : Except PyErr Keywords := do
   let (text0, delim, w0) := t
   let mut text := text0
   let mut warns : List String := if w0 then ["text"] else []
@@ -160,30 +172,55 @@ def loadRest (file : Bytes) (h : Header) (t : Dict × Option Nat × Bool) : Exce
       let (a, bad) := parseAnalysis ab ae
       analysis := a
       if bad then warns := warns ++ ["analysis"]
-  -- DATA
+  -- `$PnR`
   let mut bits : List (Option Nat) := []
   for p in List.range par.toNat do
     let r ← lookup text s!"$P{p+1}R"
     let b ← rangeBits r
     bits := bits ++ [b]
-  let (db, de) ←
-    if h.dataBegin != 0 && h.dataEnd != 0 then pure (h.dataBegin, h.dataEnd)
-    else if isV3 h.version then do
-      let b ← intKw text "$BEGINDATA"
-      let e ← intKw text "$ENDDATA"
-      if b != 0 && e != 0 then pure (b, e) else throw .ValueError
-    else throw .ValueError
-  let tot ← intKw text "$TOT"
-  if tot < 0 || db < 0 || de < 0 then throw .ValueError
-  if ws.any (· < 0) then throw .ValueError
-  let wsN := ws.map Int.toNat
-  let dt := if dts == s2l "I" then DType.I else if dts == s2l "F" then DType.F else DType.D
-  -- a range the model cannot turn into a bit count (non-integer literal, <= 0) is outside the modelled domain
-  if dt == .I && bits.any Option.isNone then throw .Other
-  let bu := bits.map (·.getD 0)
-  let data ← readData file db.toNat de.toNat dt tot.toNat wsN big (some bu)
-  let width := match dt with | .I => resultWidth wsN | .F => 32 | _ => 64
-  pure ⟨text, analysis, data, wsN.length, dt != .I, width, warns⟩
+  pure ⟨text, analysis, warns, dts, ws, big, bits⟩
+
+/-- where the DATA segment is: the HEADER offsets unless one of them is 0, then (FCS 3.x) `$BEGINDATA` / `$ENDDATA` of the merged keywords -/
+def dataOffsets (h : Header) (text : Dict) : Except PyErr (Int × Int) :=
+  if h.dataBegin != 0 && h.dataEnd != 0 then .ok (h.dataBegin, h.dataEnd)
+  else if isV3 h.version then
+    match intKw text "$BEGINDATA" with
+    | .error e => .error e
+    | .ok b =>
+      match intKw text "$ENDDATA" with
+      | .error e => .error e
+      | .ok e => if b != 0 && e != 0 then .ok (b, e) else .error .ValueError
+  else .error .ValueError
+
+/-- bits of the numeric type of the loaded array -/
+def widthOf (dt : DType) (wsN : List Nat) : Nat := match dt with | .I => resultWidth wsN | .F => 32 | _ => 64
+
+def dtypeOf (dts : Bytes) : DType := if dts == s2l "I" then DType.I else if dts == s2l "F" then DType.F else DType.D
+
+/-- the DATA stage of `FCSFile.__init__`: offsets, `$TOT`, sign checks, then `read_fcs_data_segment` -/
+def loadData (file : Bytes) (h : Header) (k : Keywords) : Except PyErr Loaded :=
+  match dataOffsets h k.text with
+  | .error e => .error e
+  | .ok (db, de) =>
+    match intKw k.text "$TOT" with
+    | .error e => .error e
+    | .ok tot =>
+      if tot < 0 || db < 0 || de < 0 then .error .ValueError
+      else if k.ws.any (· < 0) then .error .ValueError
+      -- a range the model cannot turn into a bit count (non-integer literal, <= 0) is outside the modelled domain
+      else if dtypeOf k.dts == .I && k.bits.any Option.isNone then .error .Other
+      else
+        let wsN := k.ws.map Int.toNat
+        match readData file db.toNat de.toNat (dtypeOf k.dts) tot.toNat wsN k.big (some (k.bits.map (·.getD 0))) with
+        | .error e => .error e
+        | .ok data =>
+          .ok ⟨k.text, k.analysis, data, wsN.length, dtypeOf k.dts != .I, widthOf (dtypeOf k.dts) wsN, k.warnings⟩
+
+/-- `FCSFile.__init__` after the HEADER and the primary TEXT segment have been read -/
+def loadRest (file : Bytes) (h : Header) (t : Dict × Option Nat × Bool) : Except PyErr Loaded :=
+  match loadKeywords file h t with
+  | .error e => .error e
+  | .ok k => loadData file h k
 
 /-- `FCSFile.__init__` -/
 def loadFile (file : Bytes) : Except PyErr Loaded :=
